@@ -14,6 +14,25 @@ import vf
 PROPS = {"C10": "C10", "C01": "C01"}
 
 CLAIMS = {
+    "C01": dict(
+        technique="TLA+ Combine spec (exact Porter-Duff rule + real-valued Render/PDF equations in outward-rounded interval "
+                  "arithmetic): lemmas and algebraic sanity model-checked by TLC; case classes enumerated by TLC, executed "
+                  "by pixman_image_composite32 and validated by TLC (trace validation)",
+        text="spec/Combine.tla states per operator the Porter-Duff factor pair or PDF blend function. Exact class (CLEAR..ADD, "
+             "all formats <= 8 bits per channel): MulUn8 rounding, saturating sums, replication/truncation -- equality "
+             "demanded on the defined bits. Tolerance class (SATURATE, DISJOINT_*, CONJOINT_*, blend modes, >8-bit "
+             "formats): the real-valued equation evaluated by spec/lib/RealIv.tla (sound interval arithmetic, MC-checked), "
+             "result must lie within one quantisation step of the destination format (8-bit integer blend modes: either "
+             "that, or within 1 step (MULTIPLY 2) of the equation on MulUn8-premultiplied operands, truncated). TLC "
+             "model-checks the MulUn8 lemma on all 65,536 pairs, interval soundness lemmas, the algebraic sanity of the "
+             "exact rule on B8 and its consistency with the real equation (three negative configurations). TLC enumerates "
+             "all 53 operators x {no mask, unified, component alpha} x six edge families (rows of 1..19 pixels); each row "
+             "is mapped on format triples and source presentations (plain, integer translation, 2x scale, PAD repeat, "
+             "1+1/65536 scale -- so transformed-source fetchers meet masks in both pipelines), run under the default "
+             "chain and with PIXMAN_DISABLE (general only); TLC judges every destination pixel, the frame, and that "
+             "source and mask are not written. Outside the domain: HSL x component alpha, sRGB/float formats, dithering; "
+             "tolerance class judged on premultiplied inputs only.",
+        ref="5 C01"),
     "C10": dict(
         technique="TLA+ Formats spec (format = bit fields decoded from the PIXMAN_FORMAT code): codec laws model-checked "
                   "exhaustively by TLC; OP_SRC conversions executed on the real library through every reader/writer "
@@ -353,8 +372,11 @@ def check_mc_codes(fmts):
                        "library %s" % (MC_CODES_NOTE, sorted(mc - lib), sorted(lib - mc)))
 
 
+GROUP = 40          # cases per Reset-delimited execution (a rejected execution is what gets saved for replay)
+
+
 def run_driver(exe, script_lines, wd, tag, nb, env_extra=None, timeout=900):
-    """split the cases into nb scripts, run the driver on each, return trace files"""
+    """split the cases into nb scripts of Reset-delimited groups, run the driver on each, return trace files"""
     traces = []
     env = dict(os.environ)
     if env_extra:
@@ -365,8 +387,9 @@ def run_driver(exe, script_lines, wd, tag, nb, env_extra=None, timeout=900):
             continue
         sp = os.path.join(wd, "%s%d.script" % (tag, bi))
         with open(sp, "w") as f:
-            f.write("R %s%d\n" % (tag, bi))
-            f.write("\n".join(part) + "\n")
+            for g, grp in enumerate(chunks(part, GROUP)):
+                f.write("R %s%d_%d\n" % (tag, bi, g))
+                f.write("\n".join(grp) + "\n")
         tr = os.path.join(wd, "%s%d.ndjson" % (tag, bi))
         p = vf.sh([exe, sp, tr], timeout=timeout, check=False, env=env)
         if p.returncode != 0:
@@ -450,27 +473,227 @@ def run_c10(args):
 
 
 def save_replay_script(v, wd, general_traces):
-    """put the script of the failing batch next to the saved replay so that --replay can re-execute it"""
+    """put the script of the rejected execution next to the saved replay so that --replay can re-execute it"""
     try:
-        note = open(v["replay"] + ".note").read()
-        import re
-        m = re.search(r"of batch (\S+?)\.ndjson", note)
+        first = json.loads(open(v["replay"]).readline())
+        name = first.get("scenario", "")
+        m = re.match(r"([a-z]+\d+)_\d+$", name)
         if not m:
             return
         base = m.group(1)
-        sp = os.path.join(wd, base + ".script")
-        lines = open(sp).read().splitlines()
-        m2 = re.search(r"at line (\d+) of the execution", note)
-        k = int(m2.group(1)) - 1 if m2 else None        # event index within the execution (line 1 = Reset)
-        out = [lines[0]] + ([lines[k]] if k and k < len(lines) else lines[1:])
-        open(v["replay"] + ".script", "w").write("\n".join(out) + "\n")
-        if any(os.path.basename(t).startswith(base) for t in general_traces):
+        lines = open(os.path.join(wd, base + ".script")).read().splitlines()
+        i = lines.index("R " + name)
+        j = i + 1
+        while j < len(lines) and not lines[j].startswith("R "):
+            j += 1
+        open(v["replay"] + ".script", "w").write("\n".join(lines[i:j]) + "\n")
+        if base.startswith("gen"):
             open(v["replay"] + ".script.general", "w").write("PIXMAN_DISABLE=fast mmx sse2 ssse3\n")
     except Exception as e:       # replay convenience only
         vf.log("could not save replay script: %r" % e)
 
 
+# ------------------------------------------------------------------------------------------
+# C01: compositing operators
+
+QUICK_DST = ["a8r8g8b8", "x8r8g8b8", "r5g6b5", "a8", "a1r5g5b5", "a2r10g10b10"]
+QUICK_SRC = ["a8r8g8b8", "x8r8g8b8", "r5g6b5", "a8", "a4r4g4b4", "a2r10g10b10", "b8g8r8a8"]
+QUICK_MSK = ["a8", "a8r8g8b8", "a4", "a1", "x8r8g8b8"]
+NEEDS_DIV = set([13] + list(range(16, 28)) + list(range(32, 44)) + [53, 54, 56, 59, 60, 61, 62])
+
+
+def tlc_cases(seed):
+    """TLC enumerates operators x modes x edge families from the spec (spec/gen/CombineGen.tla)"""
+    path = os.path.join(vf.SPEC, "gen", "CombineGen.tla")
+    r = vf.run_tlc(path, workers=1, timeout=600, tag="cgen", extra=["-seed", str(seed)])
+    cases = []
+    for m in re.finditer(r'<<\s*"VF:case",\s*("(?:[^"\\]|\\.)*")\s*>>', r.out):
+        cases.append(json.loads(json.loads(m.group(1))))
+    if len(cases) < 900:
+        raise vf.Infra("CombineGen produced %d cases:\n%s" % (len(cases), r.out[-2000:]))
+    return cases, r
+
+
+def c01_domain(F):
+    return F.packed and F.type != TYPE_SRGB
+
+
+def premult_native(F, vals):
+    """clamp native colour values so that colour/max <= alpha/max (exact rationals)"""
+    bt = F.bits()
+    if not bt["a"]:
+        return vals
+    am = (1 << bt["a"]) - 1
+    for c in "rgb":
+        if bt[c]:
+            cm = (1 << bt[c]) - 1
+            lim = (vals["a"] * cm) // am
+            vals[c] = min(vals[c], lim)
+    return vals
+
+
+def native_from8(F, a, r, g, b):
+    v8 = {"a": a, "r": r, "g": g, "b": b}
+    bt = F.bits()
+    vals = {}
+    for c in "argb":
+        n = bt[c]
+        vals[c] = 0 if not n else ((v8[c] >> (8 - n)) if n <= 8 else ((v8[c] << (n - 8)) | (v8[c] >> (16 - n))))
+    return vals
+
+
+def gen_c01_cases(fmts, tcases, rng, tier):
+    quick = tier == "quick"
+    if quick:
+        dsts = [fmts[n] for n in QUICK_DST]
+        srcs = [fmts[n] for n in QUICK_SRC]
+        msks = [fmts[n] for n in QUICK_MSK]
+        per_case = 3
+    else:
+        dsts = [F for F in fmts.values() if F.dst_ok and c01_domain(F) and F.name not in ("x4c4", "x4g4")]
+        srcs = [F for F in fmts.values() if F.src_ok and c01_domain(F)]
+        msks = [fmts[n] for n in ("a8", "a8r8g8b8", "a4", "a1", "x8r8g8b8", "a2r10g10b10", "r5g6b5", "a4r4g4b4", "b8g8r8a8")]
+        per_case = 14
+    out = []
+    k = 0
+    for tc in tcases:
+        op, mode, fam, row = tc["op"], tc["mode"], tc["fam"], tc["row"]
+        w = len(row)
+        for rep in range(per_case):
+            k += 1
+            fd = dsts[k % len(dsts)] if rep or not quick else rng.choice(dsts)
+            fs = rng.choice(srcs)
+            fm = rng.choice(msks) if mode != "none" else None
+            narrow = (not fs.wide) and (not fd.wide) and (fm is None or not fm.wide)
+            exact = op <= 12 and narrow
+            pres = rng.choice([0, 0, 0, 1, 2, 3, 4, 4]) if rep else 0
+            # ---- source row
+            if pres == 3:
+                sx = -2
+                sw = max(1, w - 3)
+            elif pres == 2:
+                sx = rng.randint(0, 3)
+                sw = (sx + w - 1) // 2 + 2
+            else:
+                sx = rng.randint(0, 2)
+                sw = sx + w + 1
+
+            def spos(i):
+                if pres == 2:
+                    return (sx + i) // 2
+                if pres == 3:
+                    return min(max(sx + i, 0), sw - 1)
+                return sx + i
+            spx = [rng.getrandbits(fs.bpp) for _ in range(sw)]
+            keys = []
+            for i, t in enumerate(row):
+                v = native_from8(fs, *t["s"])
+                if not exact:
+                    v = premult_native(fs, v)
+                spx[spos(i)] = fs.word(v)
+            src = pack_pixels(fs.bpp, spx, 0, sw, rng)
+            # ---- mask row
+            if fm is not None:
+                mx = rng.randint(0, 1)
+                mw = mx + w + 1
+                mpx = [fm.word(native_from8(fm, *t["m"])) for t in row]
+                msk = pack_pixels(fm.bpp, mpx, mx, mw, rng)
+            else:
+                mx, mw, msk, mpx = 0, 0, b"", [0] * w
+            # ---- destination row
+            dx = rng.choice(offsets_for(fd.bpp))
+            dw = dx + w + 1
+            dpx = []
+            for t in row:
+                v = native_from8(fd, *t["d"])
+                if not exact:
+                    v = premult_native(fd, v)
+                dpx.append(fd.word(v))
+            dst = pack_pixels(fd.bpp, dpx, dx, dw, rng)
+            line = "C %d %d %d %d %d %d %d %d %d %d %d %d %d %d %s %s %s" % (
+                op, 1 if mode == "ca" else 0, 0 if fm is None else 1, fs.code, fm.code if fm else 0, fd.code,
+                pres, sw, sx, mw, mx, dw, dx, w, hx(src), hx(msk), hx(dst))
+            for i in range(w):
+                keys.append((op, mode, fs.code, fm.code if fm else 0, fd.code, spx[spos(i)], mpx[i], dpx[i]))
+            out.append(dict(line=line, op=op, mode=mode, fam=fam, fs=fs.name, fm=fm.name if fm else None, fd=fd.name,
+                            pres=pres, w=w, exact=exact, narrow=narrow, keys=keys))
+    return out
+
+
+def run_c01(args):
+    chk = vf.Check("C01", args.tier, args.seed)
+    rng = random.Random(args.seed * 1000003 + 1)
+    wd = vf.workdir("pixel-C01")
+    exe, px = vf.build_driver("drv_composite", "plain")
+    exe_p, _ = vf.build_driver("drv_pixel", "plain")
+    chk.extra["build"] = px["hash"]
+    fmts = library_formats(exe_p)
+
+    if args.replay:
+        tr = os.path.join(wd, "replay.ndjson")
+        script = args.replay if args.replay.endswith(".script") else args.replay + ".script"
+        e = dict(os.environ)
+        if os.path.exists(script + ".general"):
+            e.update(GENERAL_ONLY)
+        vf.sh([exe, script, tr], timeout=600, env=e)
+        vf.validate_batches(chk, "CombineTrace", [tr], parallel=1)
+        return chk.finish()
+
+    # 1. design-level model checking
+    base = os.path.join(vf.SPEC, "mc")
+    for cfg, neg in (("CombineMC.cfg", False), ("CombineMC_neg_mul.cfg", True), ("CombineMC_neg_over.cfg", True),
+                     ("CombineMC_neg_iv.cfg", True)):
+        r = vf.tlc_mc(os.path.join(base, "CombineMC.tla"), cfg=os.path.join(base, cfg), workers=16 if not neg else 4,
+                      timeout=1500, expect_violation=neg)
+        chk.add_tlc(r, ("negative config (must be rejected) " if neg else "model check ") + cfg)
+        if not neg and (r.inv_violation or r.deadlock):
+            raise vf.Infra("the Combine model itself violates an invariant:\n" + r.out[-2500:])
+
+    # 2. case classes enumerated by TLC, mapped on formats and presentations
+    tcases, r = tlc_cases(args.seed)
+    chk.add_tlc(r, "case class enumeration (CombineGen)")
+    chk.extra["tlc_generated_case_classes"] = len(tcases)
+    cases = gen_c01_cases(fmts, tcases, rng, args.tier)
+    lines = [c["line"] for c in cases]
+    chk.sample({"tlc_case_class": {k: (v if k != "row" else v[:2]) for k, v in tcases[len(tcases) // 2].items()}})
+    chk.sample({k: v for k, v in cases[1].items() if k not in ("keys", "line")})
+    chk.sample({"script_line": lines[1][:300]})
+    npx = sum(c["w"] for c in cases)
+    chk.extra["pixel_cases"] = npx
+    chk.extra["pixel_cases_exact_class"] = sum(c["w"] for c in cases if c["exact"])
+    chk.extra["pixel_cases_tolerance_class"] = sum(c["w"] for c in cases if not c["exact"])
+    chk.extra["rows_by_presentation"] = {str(p): sum(1 for c in cases if c["pres"] == p) for p in range(5)}
+    chk.extra["rows_wide_pipeline_with_mask_and_transformed_source"] = sum(
+        1 for c in cases if c["pres"] != 0 and c["mode"] != "none" and (not c["narrow"] or c["op"] in NEEDS_DIV))
+    chk.extra["operators"] = len(set(c["op"] for c in cases))
+    chk.extra["destination_formats"] = sorted(set(c["fd"] for c in cases))
+    for c in cases:
+        for key in c["keys"]:
+            chk.distinct_keys.add(hash(key))
+
+    # 3. execute: default implementation chain, and general implementation only
+    nb = 12
+    traces = run_driver(exe, lines, wd, "def", nb)
+    traces_g = run_driver(exe, lines, wd, "gen", nb, env_extra=GENERAL_ONLY)
+    chk.evaluations = 2 * npx
+
+    # 4. trace validation
+    vf.validate_batches(chk, "CombineTrace", traces + traces_g, parallel=12, timeout=2400, xmx="4g")
+    for v in chk.violations:
+        save_replay_script(v, wd, traces_g)
+    chk.extra["rule"] = ("a case is one destination pixel of one composite request; distinct = distinct (operator, mask mode, "
+                         "source/mask/destination format, raw source, mask, destination pixel); every case is executed under "
+                         "the default chain and with PIXMAN_DISABLE='fast mmx sse2 ssse3'; tolerance-class inputs are "
+                         "premultiplied by construction, so every case is judged")
+    chk.assumptions += ["little-endian host", "tolerance class judged on premultiplied inputs (colour <= alpha)",
+                        "HSL operators with a component-alpha mask, sRGB / float formats and dithering are outside the domain",
+                        "the source pixel a destination pixel sees under the five presentations is the sampling rule of C08 "
+                        "(integer translation, exact 2x scale, PAD clamp, 1+1/65536 scale at small coordinates)",
+                        "TLC/SANY and the CommunityModules Json reader are trusted"]
+    return chk.finish()
+
+
 def run(prop, args):
     if prop == "C10":
         return run_c10(args)
-    raise vf.Infra("C01 not built yet")
+    return run_c01(args)
